@@ -58,6 +58,9 @@ type EScen struct {
 	Release []int `json:"release,omitempty"`
 	// wait family: every exec callback sleeps this long before it returns (microseconds)
 	ExecDelayUs int `json:"exec_delay_us,omitempty"`
+	// gated runs: the controller sits on quiescent point number HoldPoint for HoldMs before releasing
+	HoldPoint int `json:"hold_point,omitempty"`
+	HoldMs    int `json:"hold_ms,omitempty"`
 }
 
 type EOutcome struct {
@@ -784,6 +787,8 @@ func runEngine(sc EScen) (obs EObs) {
 	for _, d := range sc.Nodes {
 		if d.Kind == "batch" && d.Conc > 0 {
 			rt.gate = newGateCtl(rt, sc.Release)
+			rt.gate.holdAt = sc.HoldPoint
+			rt.gate.holdFor = time.Duration(sc.HoldMs) * time.Millisecond
 			go rt.gate.loop()
 			defer rt.gate.stop()
 			break
